@@ -204,6 +204,11 @@ func c19RandCase(r *rand.Rand) c19Case {
 		switch r.Intn(7) {
 		case 0, 1, 2:
 			ext := (3 + 2*r.Intn(3)) * 20 // 60, 100, 140 ms: deadline on a half unit after this message
+			if r.Intn(6) == 0 {
+				// timeout:"0" is what Timeout(0) and sub-millisecond durations announce: the
+				// deadline restarts with zero, i.e. the request times out at this very message
+				ext = 0
+			}
 			cs.Msgs = append(cs.Msgs, c19Msg{At: at, Kind: "pre-timeout", Payload: fmt.Sprintf(`timeout:"%d"`, ext), ExtMS: ext})
 		case 3:
 			cs.Msgs = append(cs.Msgs, c19Msg{At: at, Kind: "pre-junk", Payload: []string{`foo:"bar"`, `timeout:"abc"`, `timeout`, `Timeout:"100"`, `x`}[r.Intn(5)]})
